@@ -10,7 +10,7 @@ CHECKS = {
              "harnesses": [
                  {"name": "VerifC01AppendRead", "quick": {"batches": 2}, "thorough": {"batches": 3, "shapes": 2}, "max-paths": 1000000,
                   "covers": ["done"], "targets": ["commitLog).Append", "Reader).ReadMessage"]},
-                 {"name": "VerifC01Ops", "quick": {"steps": 2}, "thorough": {"steps": 3, "shapes": 2, "headers": 1}, "max-paths": 1000000,
+                 {"name": "VerifC01Ops", "quick": {"steps": 2}, "thorough": {"steps": 3, "shapes": 2, "headers": 1, "setsize": 1}, "max-paths": 1000000,
                   "covers": ["done", "append", "append-set", "truncate", "reopen"], "targets": ["commitLog).Truncate", "commitLog).AppendMessageSet"]},
                  {"name": "VerifC01LiveReader", "quick": {"msgs": 3}, "thorough": {"msgs": 4},
                   "covers": ["done", "truncate-above-reader", "append-after-reader"], "targets": ["commitLog).Truncate"]},
@@ -37,8 +37,8 @@ CHECKS = {
                   "targets": ["replicator).start", "replicator).replicate", "replicator).caughtUp", "replicator).maybeExpandISR", "protocolWriter).Flush",
                               "partition).sendReplicationRequest", "partition).handleReplicationRequest", "partition).handleReplicationResponse",
                               "partition).commitLoop", "partition).updateISRLatestOffset", "partition).messageProcessingLoop"]},
-                 {"name": "VerifC02Failovers", "replay": "interpreted", "max-paths": 3000000, "quick": {"m1": 2, "m2": 1, "m3": 1}, "thorough": {"m1": 2, "m2": 2, "m3": 2},
-                  "covers": ["done", "second-term", "third-term"],
+                 {"name": "VerifC02Failovers", "replay": "interpreted", "max-paths": 3000000, "quick": {"m1": 2, "m2": 1, "m3": 1, "stalein": 5}, "thorough": {"m1": 2, "m2": 2, "m3": 2, "stalein": 0},
+                  "covers": ["done", "second-term", "third-term", "stale-response"],
                   "targets": ["partition).truncateUncommitted", "partition).handleLeaderOffsetRequest", "partition).sendLeaderOffsetRequest", "commitLog).NewLeaderEpoch"]},
              ]},
         ],
